@@ -63,6 +63,7 @@ EXTRA = {
     'set_core': (['any'], lambda E, o, s: o[0].set_core(s.get('k', 0), E.stensor('nc', ([o[0].R[s.get('k', 0)], E.dim('nm', 1, s['B']), E.dim('nn', 1, s['B']), o[0].R[s.get('k', 0) + 1]]
                                                                                        if o[0].is_ttm else [o[0].R[s.get('k', 0)], E.dim('nn', 1, s['B']), o[0].R[s.get('k', 0) + 1]])))),
     'set_core_free': (['any'], lambda E, o, s: o[0].set_core(s.get('k', 0), E.stensor('nc', [E.dim('f%d' % i, 1, s['B']) for i in range(4 if o[0].is_ttm else 3)]))),
+    'set_core_ndim': (['any'], lambda E, o, s: o[0].set_core(s.get('k', 0), E.stensor('nc', [o[0].R[s.get('k', 0) % len(o[0].N)]] + [E.dim('g%d' % i, 1, s['B']) for i in range(s['ndim'] - 2)] + [o[0].R[s.get('k', 0) % len(o[0].N) + 1]]))),
     'reduce_dims': (['any'], lambda E, o, s: o[0].reduce_dims()),
     'reduce_dims_exclude': (['any'], lambda E, o, s: o[0].reduce_dims([0])),
     'round': (['any'], lambda E, o, s: o[0].round(1e-3)),
